@@ -27,7 +27,10 @@ HUGE = [2**53 + 1, 2**62, 2**63 - 1, 2**63, 2**64 - 1]
 def plan(tier, seed):
     specs = []
     ex = [("int012", [0, 1, 2], 3, 3), ("int01N", [0, 1, None], 3, 3),
-          ("float", [0.0, 0.5, 1.5], 3, 3), ("bool", [False, True], 3, 3)]
+          ("float", [0.0, 0.5, 1.5], 3, 3), ("bool", [False, True], 3, 3),
+          # sparse tables whose weights are all negative (the placeholder for a missing pair, derived from the weights, can then be
+          # zero or negative itself), integers and floats
+          ("negN", [-2, -1, None], 3, 3), ("negfloatN", [-1.0, -0.5, None], 2, 3)]
     if tier == "thorough":
         ex += [("int012-3x4", [0, 1, 2], 3, 4), ("int012-4x3", [0, 1, 2], 4, 3), ("int01N-3x4", [0, 1, None], 3, 4),
                ("neg", [-1, 0, 1], 3, 3), ("bigtie", [2**32, 2**32 + 1, 2**53], 3, 3)]
@@ -92,8 +95,11 @@ def gen_cases(spec, ctx):
                 pool = pool + [None] * r.randint(1, 4)              # sparse
             elif x < 0.5 and isinstance(pool[0], int) and not isinstance(pool[0], bool):
                 pool = pool + [-r.randint(1, 100) for _ in range(2)]  # negative
-            elif x < 0.6 and isinstance(pool[0], int) and not isinstance(pool[0], bool):
+            elif x < 0.55 and isinstance(pool[0], int) and not isinstance(pool[0], bool):
                 pool = pool + [-5, None]
+            elif x < 0.6:
+                # every existing weight negative, some pairs missing (ints or floats)
+                pool = r.choice([[-1, -2, -3, None], [-1, -1, None, None], [-1.0, -2.5, None], [-7, -1, -100, None, None]])
             elif x < 0.7 and isinstance(pool[0], int) and not isinstance(pool[0], bool):
                 pool = pool + r.sample(HUGE, 2)
             elif x < 0.75 and isinstance(pool[0], int) and not isinstance(pool[0], bool):
